@@ -265,11 +265,23 @@ def import_oracle(c, stats):
 # ------------------------------------------------------------------ roundtrip part
 
 @st.composite
+def tall_sparse_st(draw):
+    """very tall sparse matrices are cheap (storage is O(columns + entries)): row counts beyond 2^31"""
+    tc = draw(st.sampled_from("dz"))
+    m = draw(st.sampled_from([2 ** 31, 2 ** 31 + 5, 2 ** 32 + 3, 2 ** 40 + 1]))
+    n = draw(st.integers(1, 3))
+    cells = [(i, j) for j in range(n) for i in (0, 1, 2, m - 1)]
+    chosen = draw(st.lists(st.sampled_from(cells), unique=True, max_size=6))
+    return dict(kind="sparse", tc=tc, m=m, n=n, I=[c[0] for c in chosen], J=[c[1] for c in chosen], V=[draw(dval(tc)) for _ in chosen],
+                tall=True)
+
+
+@st.composite
 def roundtrip_st(draw):
     what = draw(st.sampled_from(["copy", "copy", "copy", "import", "import", "export", "shortfile"]))
     if what in ("copy",):
-        X = draw(st.one_of(dense_st(), sparse_st()))
-        hows = COPIES
+        X = draw(st.one_of(dense_st(), dense_st(), dense_st(), sparse_st(), sparse_st(), sparse_st(), tall_sparse_st()))
+        hows = COPIES if not X.get("tall") else [h for h in COPIES if h != "slice"]
         return dict(what=what, X=X, how=draw(st.sampled_from(hows)))
     if what == "import":
         return dict(what=what, imp=draw(import_st()))
